@@ -8,6 +8,7 @@ C04 line protocol.  Two kinds of line:
       part    0/1: a stale part file exists at the start
       events  n | o<excl><samedir>:<mode> | c<mode> | w<size> | f | s | x | xf | R | L | U | T | W<size> | D | ?
               (one token per recorded call; a write writes <size> bytes of value 1)
+  S <umask> <dest> <part> <events...>      the same for a SYSCALL-level trace (strace view; `proc=-`)
     output:  safe=<0|1> exec=<ok|fail@k> proc=<letters> power=<ok|bad@k> final=<letter> part=<0|1>
       proc   one letter per prefix of the trace (k = 0..N): what a reader of the destination finds
              after a process death there: a absent, o old content, n new content (= all bytes
@@ -109,13 +110,13 @@ def prefixStates (fs : FS) : List Ev → List FS
     | .ok fs' => fs :: prefixStates fs' t
     | .error _ => [fs]
 
-def accept (umask : Nat) (dest : Option Inode) (part : Bool) (evs : List Ev) : String :=
+def accept (umask : Nat) (dest : Option Inode) (part : Bool) (evs : List Ev) (withProc : Bool) : String :=
   let fs0 := mkFS dest part umask
   let old := fs0.readDest
   let new := allData evs
   let sts := prefixStates fs0 evs
   let feasible := sts.length = evs.length + 1
-  let proc := String.ofList (sts.map fun fs => classify old new fs.destAfterProcCrash)
+  let proc := if withProc then String.ofList (sts.map fun fs => classify old new fs.destAfterProcCrash) else "-"
   let okLetters : List Char := [classify old new old, 'n', 'b']
   -- `FS.powerDests` without enumerating long tails: an inode with two or more unsynced bytes has at
   -- least three power-loss contents of different lengths, which cannot all be old or new
@@ -133,7 +134,11 @@ def handle (line : String) : String :=
   match words line with
   | "A" :: umask :: dest :: part :: evs =>
     match umask.toNat?, parseDest? dest, part.toList.map bit?, allOpt (evs.map parseEv?) with
-    | some umask, some dest, [some part], some evs => accept umask dest part evs
+    | some umask, some dest, [some part], some evs => accept umask dest part evs true
+    | _, _, _, _ => "bad-op"
+  | "S" :: umask :: dest :: part :: evs =>
+    match umask.toNat?, parseDest? dest, part.toList.map bit?, allOpt (evs.map parseEv?) with
+    | some umask, some dest, [some part], some evs => accept umask dest part evs false
     | _, _, _, _ => "bad-op"
   | ["T", flags, perms, umask, dest, part, raises, sizes] =>
     match flags.toList.map bit?, (if perms = "-" then some none else perms.toNat?.map some),
